@@ -425,22 +425,29 @@ class Convert(Suite):
             for k in range(1, len(toks)):
                 out.append({"class": "truncated", "text": " ".join(toks[:k]), "rows": None, "via": "stream"})
         # malformed points: 3 or 5 numbers, a literal inside a point
-        for _ in range(60 if big else 15):
+        # every kind in turn (a guaranteed share of each in the quick tier); a kind that does not fit the drawn document is retried on another one
+        KINDS = ["three", "five", "literal", "literal-first", "badfloat", "nobracket"]
+        todo = [KINDS[j % len(KINDS)] for j in range(60 if big else 18)]
+        tries = 0
+        while todo and tries < 40 * len(KINDS):
+            tries += 1
             d = doc()
             text, toks = render(rng, d, layout=False)
             idx = [i for i, t in enumerate(toks) if t == "(" and i + 5 < len(toks) and toks[i + 5] == ")" and toks[i + 1] not in ("(", "Color")]
             if not idx:
                 continue
             i = rng.choice(idx)
-            kind = rng.choice(["three", "five", "literal", "literal-first", "literal-first", "badfloat", "nobracket", "nobracket"])
+            kind = todo[0]
             t2 = list(toks)
             if kind == "three":
                 del t2[i + 4]
             elif kind == "five":
                 t2.insert(i + 4, "7")
             elif kind == "nobracket":
-                if i < 5 or t2[i - 1] != ")":
+                ok = [j for j in idx if j >= 5 and t2[j - 1] == ")"]
+                if not ok:
                     continue                      # only a point that follows another point / marker (not the first after the label)
+                i = rng.choice(ok)
                 del t2[i]                         # the point lost its opening bracket; the document gains a stray ")" at the end
             elif kind == "literal":
                 t2[i + rng.randint(1, 4)] = rng.choice(["abc", "x1", "NaN"])
@@ -448,6 +455,7 @@ class Convert(Suite):
                 t2[i + 1] = rng.choice(["abc", "x", "l0", "Dot", "Cross", "#REF!", "NaN"])      # the first field of a point is a word
             else:
                 t2[i + rng.randint(1, 4)] = rng.choice(["1e", "1..2", "12abc", "0x10"])
+            todo.pop(0)
             out.append({"class": "badpoint/" + kind, "text": " ".join(t2), "rows": None, "via": "stream"})
         # malformed points, guaranteed share: one field is a word that a general-purpose number reader (CPython's float()) understands
         # but that is not a number of the ASC grammar [-+]digits[.digits][e[-+]digits]: nan / inf / infinity, signed, in any case
